@@ -1174,7 +1174,26 @@ func (vm *VirtualMachine) cloneCallAsync(
 	if err != nil {
 		return nil, err
 	}
-	return object.NewThread(clone.initContext(ctx), fn, args), nil
+	// Arm the clone for this context, so that cancellation stops the code it
+	// runs like it stops the code of the VM it was cloned from. The watcher is
+	// released when the call made in the new thread is over.
+	if err := clone.start(ctx); err != nil {
+		return nil, err
+	}
+	call := &cloneCall{clone: clone, fn: fn}
+	return object.NewThread(clone.initContext(ctx), call, args), nil
+}
+
+// cloneCall is the call that a thread makes on the clone that was created for
+// it. It releases the clone's context watcher when the call is over.
+type cloneCall struct {
+	clone *VirtualMachine
+	fn    object.Callable
+}
+
+func (c *cloneCall) Call(ctx context.Context, args ...object.Object) object.Object {
+	defer c.clone.stop()
+	return c.fn.Call(ctx, args...)
 }
 
 // Clones the VM and then calls the function synchronously in the clone.
@@ -1187,6 +1206,11 @@ func (vm *VirtualMachine) cloneCallSync(
 	if err != nil {
 		return nil, err
 	}
+	// Arm the clone for this context for the duration of the call
+	if err := clone.start(ctx); err != nil {
+		return nil, err
+	}
+	defer clone.stop()
 	return clone.callFunction(clone.initContext(ctx), fn, args)
 }
 
